@@ -34,7 +34,7 @@ NDSize DataView::transform_coordinates(const NDSize &cnt, const NDSize &off) con
         return offset;
 
     } else {
-        if (cnt + off > count) {
+        if (exceeds(cnt, off, count)) {
             throw OutOfBounds("Trying to access data outside of range", 0);
         }
 
